@@ -1,1 +1,34 @@
+(* C11 property theorems.  Nothing but statements closed by `exact`, each followed by Print Assumptions.
+   Model.v follows src/kernel/rational/givratreconstruct.C; PolyModel.v follows src/library/poly1/givpoly1ratrecon.inl.
+   cong m a b := exists c, a - b = c * m.
+   sound f m k fr (ok,n,d) := ok = true -> cong m n (d*f) /\ |n| < k /\ 0 < d /\ (fr = true -> Z.gcd n d = 1). *)
 From Coq Require Import ZArith.
+From C11 Require Import Model ProofsLoop ProofsSound ProofsComplete PolyModel PolyProofs.
+Local Open Scope Z_scope.
+
+(* the loop of ratrecon terminates within the fuel 2*log2 m + 4 for every f, m >= 2, k >= 1 *)
+Theorem C11_ratrecon_terminates : Ratrecon_total.              Proof. exact ratrecon_total. Qed.
+Print Assumptions C11_ratrecon_terminates.
+(* soundness of Rational::ratrecon for all f (negative, >= m), m >= 1, 1 <= k <= m, with and without forcereduce *)
+Theorem C11_ratrecon_sound : Ratrecon_sound.                   Proof. exact ratrecon_sound. Qed.
+Print Assumptions C11_ratrecon_sound.
+(* RationalReconstruction(a,b,x,m): bound sqrt m, reduced *)
+Theorem C11_rr4_sound : RR4_sound.                             Proof. exact rr4_sound. Qed.
+Print Assumptions C11_rr4_sound.
+(* RationalReconstruction(a,b,f,m,k,forcereduce,recursive) including the widening loop *)
+Theorem C11_rr7_sound : RR7_sound.                             Proof. exact rr7_sound. Qed.
+Print Assumptions C11_rr7_sound.
+(* RationalReconstruction(a,b,x,m,a_bound,b_bound) as repaired by frag/C11.fix-1.diff *)
+Theorem C11_rr6_sound : RR6_sound.                             Proof. exact rr6_sound. Qed.
+Print Assumptions C11_rr6_sound.
+(* completeness: any coprime a/b, b > 0, a == b f (mod m), |a| m + b k^2 <= k m, is returned exactly *)
+Theorem C11_ratrecon_complete : Ratrecon_complete.             Proof. exact ratrecon_complete. Qed.
+Print Assumptions C11_ratrecon_complete.
+(* the property's envelope: 4|a| <= sqrt m, 4 b <= sqrt m, default bound *)
+Theorem C11_rr4_complete : RR4_complete.                       Proof. exact rr4_complete. Qed.
+Print Assumptions C11_rr4_complete.
+Theorem C11_rr4_complete_inverse : RR4_complete_inverse.       Proof. exact rr4_complete_inverse. Qed.
+Print Assumptions C11_rr4_complete_inverse.
+(* polynomial ratrecon: N == D*P (mod M), deg N <= dk, D <> 0, over every ring with a degree function *)
+Theorem C11_poly_ratrecon_sound : Poly_ratrecon_sound.         Proof. exact poly_ratrecon_sound_full. Qed.
+Print Assumptions C11_poly_ratrecon_sound.
